@@ -74,14 +74,30 @@ def prog_space(tier):
     return progs
 
 
+VARIANTS = ["sub", "glob", "ret", "sub+glob+ret", "clear", "sub+glob+ret+clear"]
+
+
 def build_prog(prog, variant):
+    """variant (provenance of the buffers): None: a, b arguments, c a local allocation. sub: a is a subview of a larger argument. glob: b is a global.
+    ret: the local allocation c is returned from the function."""
+    v = set((variant or "").split("+")) - {""}
     em = ST.Emitter(leaf_emit, [])
     lines = []
     em._seq(prog, lines, "  ", [])
-    args = [f"%a : {MT}", f"%b : {MT}"] + [f"%n{k} : index" for k in range(em.nfor)]
+    args = [f"%abig : memref<16xi32>" if "sub" in v else f"%a : {MT}"] + ([] if "glob" in v else [f"%b : {MT}"]) + [f"%n{k} : index" for k in range(em.nfor)]
     pre = [f"  %c = memref.alloc() : {MT}"]
-    text = "builtin.module {\nfunc.func public @f(" + ", ".join(args) + ") {\n  %zero = arith.constant 0 : index\n  %one = arith.constant 1 : index\n"
-    text += "\n".join(pre + lines) + "\n  func.return\n}\n}\n"
+    glob = ""
+    if "sub" in v:
+        pre.append(f"  %a = memref.subview %abig[4] [8] [1] : memref<16xi32> to memref<8xi32, strided<[1], offset: 4>>")
+    if "glob" in v:
+        glob = f'  "memref.global"() <{{sym_name = "gb", type = {MT}, initial_value, sym_visibility = "private"}}> : () -> ()\n'
+        pre.append(f"  %b = memref.get_global @gb : {MT}")
+    ret = f" -> {MT}" if "ret" in v else ""
+    text = "builtin.module {\n" + glob + "func.func public @f(" + ", ".join(args) + ")" + ret + " {\n  %zero = arith.constant 0 : index\n  %one = arith.constant 1 : index\n"
+    text += "\n".join(pre + lines) + ("\n  func.return %c : " + MT if "ret" in v else "\n  func.return") + "\n}\n}\n"
+    if "sub" in v:
+        st = "memref<8xi32, strided<[1], offset: 4>>"
+        text = text.replace(f"ins(%a : {MT})", f"ins(%a : {st})").replace(f"outs(%a : {MT})", f"outs(%a : {st})")
     return text, em.nfor
 
 
@@ -128,18 +144,22 @@ class BufMachine:
         return h
 
 
-def run_prog(mod, trips):
+def run_prog(mod, trips, variant=None):
+    v = set((variant or "").split("+")) - {""}
     m = BufMachine()
-    it = Interp(handlers=m.handlers(), budget=20000)
-    a = View(("a", 0), 4, 0, [8], [1], 0x10)
+    h = m.handlers()
+    h["memref.get_global"] = lambda it, op: [View(("b", 0), 4, 0, [8], [1], 0x20)]
+    it = Interp(handlers=h, budget=20000)
+    a = View(("a", 0), 4, 0, [16], [1], 0x10) if "sub" in v else View(("a", 0), 4, 0, [8], [1], 0x10)
     b = View(("b", 0), 4, 0, [8], [1], 0x20)
-    it.run_func(find_func(mod, "f"), [a, b] + list(trips))
+    term, vals = it.run_func(find_func(mod, "f"), [a] + ([] if "glob" in v else [b]) + list(trips))
+    m.returned = [m.term(x) if isinstance(x, View) else x for x in (vals or [])]
     return m, it.steps
 
 
-def eval_prog(r, prog, only=None):
-    text, nfor = build_prog(prog, None)
-    key = f"prog|{prog!r}"
+def eval_prog(r, prog, only=None, variant=None):
+    text, nfor = build_prog(prog, variant)
+    key = f"prog|{prog!r}" + (f"|{variant}" if variant else "")
     try:
         base = common.parse(text)
         base.verify()
@@ -147,7 +167,9 @@ def eval_prog(r, prog, only=None):
         raise RuntimeError(f"generator bug: {e}\n{text}")
     out = base.clone()
     try:
-        common.run_pipeline(out, "set-memory-space,realize-memref-casts")
+        # clear: the late clear-memory-space pass is run as well (it erases the memory spaces again, so only the data flow is compared)
+        cleared = "clear" in (variant or "")
+        common.run_pipeline(out, "set-memory-space,realize-memref-casts" + (",clear-memory-space" if cleared else ""))
     except Exception as e:
         r.rejected = "pass:" + type(e).__name__
         r.count("exc:" + type(e).__name__ + ":" + str(e)[:60])
@@ -159,22 +181,26 @@ def eval_prog(r, prog, only=None):
     f = find_func(out, "f")
     for t in f.function_type.inputs:
         ms = getattr(t, "memory_space", None)
-        if ms is not None and hasattr(ms, "data") and ms.data != "L3":
+        if not cleared and ms is not None and hasattr(ms, "data") and ms.data != "L3":
             r.violate(key + "|signature", dict(kind="prog", prog=prog, trips=None), f"function argument type {t} does not keep the external memory space L3")
+    for t in f.function_type.outputs:
+        ms = getattr(t, "memory_space", None)
+        if not cleared and ms is not None and hasattr(ms, "data") and ms.data != "L3":
+            r.violate(key + "|signature-out", dict(kind="prog", prog=prog, trips=None, variant=variant), f"function result type {t} does not keep the external memory space L3")
     obs_all = []
     for trips in itertools.product([0, 1, 2], repeat=nfor):
         if only is not None and list(trips) != only:
             continue
-        m0, s0 = run_prog(base, trips)
+        m0, s0 = run_prog(base, trips, variant)
         try:
-            m1, s1 = run_prog(out, trips)
+            m1, s1 = run_prog(out, trips, variant)
         except UseBeforeDef as e:
             r.violate(key + f"|{trips}|ubd", dict(kind="prog", prog=prog, trips=list(trips), output_ir=out_text), f"use before def after the passes: {e}")
             continue
         r.transitions += s0 + s1
         r.states += len(m0.obs)
         r.validated += 1
-        case_j = dict(kind="prog", prog=prog, trips=list(trips), output_ir=out_text)
+        case_j = dict(kind="prog", prog=prog, trips=list(trips), variant=variant, output_ir=out_text)
         obs_all.append(hash(repr(m0.obs)))
         if m0.obs != m1.obs:
             i = next((k for k, (x, y) in enumerate(zip(m0.obs, m1.obs)) if x != y), min(len(m0.obs), len(m1.obs)))
@@ -187,9 +213,11 @@ def eval_prog(r, prog, only=None):
             if t0 != t1:
                 r.violate(key + f"|{trips}|final", case_j, f"final contents of argument buffer {bname}: {t1} instead of {t0} (copy back missing or misplaced); trips={trips}; program {prog!r}")
                 break
-        if any(s != "L1" for s in m1.operand_spaces):
+        if m0.returned != m1.returned:
+            r.violate(key + f"|{trips}|returned", case_j, f"the returned buffer holds {m1.returned} instead of {m0.returned}; trips={trips}; program {prog!r} ({variant})")
+        if not cleared and any(s != "L1" for s in m1.operand_spaces):
             r.violate(key + f"|{trips}|space", case_j, f"an accelerator operand is not in L1 after the passes: {set(m1.operand_spaces)}; program {prog!r}")
-    r.obs = (prog, tuple(obs_all))
+    r.obs = (prog, variant, tuple(obs_all))
     r.sample = dict(kind="prog", program=text, output=out_text[:1500])
 
 
@@ -456,6 +484,11 @@ def eval_transpose(r, rows, cols):
 
 def space(tier):
     cases = [("prog", p) for p in prog_space(tier)]
+    # other buffer provenances (subview of an argument, global, returned allocation) on the programs with <= 2 ops
+    for p in prog_space(tier):
+        if ST.count(p, lambda s_: s_[0] == "G") <= 2:
+            for v in VARIANTS:
+                cases.append(("prog", p, v))
     for i in range(len(dense_layouts())):
         for elw in (1, 4):
             cases.append(("const", i, elw, "direct"))
@@ -474,7 +507,7 @@ def space(tier):
 def evaluate(case) -> CaseResult:
     r = CaseResult()
     if case[0] == "prog":
-        eval_prog(r, case[1])
+        eval_prog(r, case[1], variant=case[2] if len(case) > 2 else None)
     elif case[0] == "const":
         eval_const(r, *case[1:])
     elif case[0] == "subglobal":
@@ -488,7 +521,7 @@ def evaluate(case) -> CaseResult:
 def replay(case):
     r = CaseResult()
     if case["kind"] == "prog":
-        eval_prog(r, ST.from_json(case["prog"]), only=case.get("trips"))
+        eval_prog(r, ST.from_json(case["prog"]), only=case.get("trips"), variant=case.get("variant"))
     elif case["kind"] == "const":
         eval_const(r, case["idx"], case["elw"], case["route"])
     elif case["kind"] == "subglobal":
